@@ -83,6 +83,10 @@ func (acc *DB) TransferWithdraw(from, to string, amount int64) (*types.Receipt, 
 	if err := acc.CheckTransfer(to, from, amount); err != nil {
 		return nil, err
 	}
+	// the credit below must not fail after the sub-account was debited
+	if _, err := safeAdd(acc.LoadAccount(from).GetBalance(), amount); err != nil {
+		return nil, err
+	}
 	receipt, err := acc.ExecWithdraw(to, from, amount)
 	if err != nil {
 		return nil, err
